@@ -590,6 +590,70 @@ func famAuthcav(r *Rng, o *Out, tier string) {
 			o.emit(fmt.Sprintf("(prohibits %s %s)", sxCav(c), d.Sx(kind)), res)
 		}
 	}
+	// ONE request object evaluated, changed in place (identities swapped, an organisation list edited, a copy of
+	// the struct given other identities of the same number) and evaluated again: the answer follows what the
+	// request says NOW, whatever it said when it was first looked at
+	for i := 0; i < n/10; i++ {
+		dr := r.DischargeRequest()
+		if len(dr.Flyio) == 0 {
+			dr.Flyio = []*auth.FlyioAuth{{UserID: r.id(), OrganizationIDs: []uint64{r.id()}}}
+		}
+		mkCav := func() macaroon.Caveat {
+			switch r.Intn(4) {
+			case 0:
+				return &auth.ConfineUser{ID: r.id()}
+			case 1:
+				h := auth.ConfineGoogleHD(r.str())
+				return &h
+			case 2:
+				g := auth.ConfineGitHubOrg(r.id())
+				return &g
+			}
+			return &auth.ConfineOrganization{ID: r.id()}
+		}
+		eval := func(d *auth.DischargeRequest, c macaroon.Caveat) {
+			t0 := time.Now()
+			d.Expiry = t0.Add(time.Hour)
+			res := guard(func() string { return sxErr(c.Prohibits(d)) })
+			o.count("reusedRequest")
+			o.emit(fmt.Sprintf("(prohibits %s %s)", sxCav(c), sxDR(d, t0.Unix(), int64(t0.Nanosecond()))), res)
+		}
+		c := mkCav()
+		eval(dr, c)
+		for step := 0; step < 3; step++ {
+			switch r.Intn(5) {
+			case 0: // another identity in the same slot
+				dr.Flyio[r.Intn(len(dr.Flyio))] = &auth.FlyioAuth{UserID: r.id(), OrganizationIDs: []uint64{r.id(), r.id()}}
+			case 1: // the organisation list edited in place
+				f := dr.Flyio[r.Intn(len(dr.Flyio))]
+				if len(f.OrganizationIDs) > 0 {
+					f.OrganizationIDs[r.Intn(len(f.OrganizationIDs))] = r.id()
+				} else {
+					f.OrganizationIDs = []uint64{r.id()}
+				}
+			case 2: // a copy of the struct with as many, other identities
+				d := *dr
+				d.Flyio = make([]*auth.FlyioAuth, len(dr.Flyio))
+				for k := range d.Flyio {
+					d.Flyio[k] = &auth.FlyioAuth{UserID: r.id(), OrganizationIDs: []uint64{r.id()}}
+				}
+				dr = &d
+			case 3:
+				for _, g := range dr.Google {
+					g.HD = r.str()
+				}
+				for _, g := range dr.GitHub {
+					g.OrgIDs = []uint64{r.id()}
+				}
+			default:
+				dr.Flyio = append(dr.Flyio, &auth.FlyioAuth{UserID: r.id(), OrganizationIDs: []uint64{r.id()}})
+			}
+			if r.Bool() {
+				c = mkCav()
+			}
+			eval(dr, c)
+		}
+	}
 	// hosted domains and ids are compared EXACTLY: letter case, characters that fold to ASCII letters (U+212A
 	// KELVIN SIGN, U+017F LONG S), a trailing dot or surrounding space all make another domain
 	{
